@@ -117,6 +117,8 @@ package kademlia
 //@   noframe
 //@   requires inv(kc)
 //@   ensures inv(kc)
+//@   ensures [sameconfig] kc.max == old(kc.max) && kc.minPerBucket == old(kc.minPerBucket) && kc.buckets == old(kc.buckets)
+//@   ensures [samebuckets] forall i :: 0 <= i && i < len(kc.buckets) ==> kc.buckets[i] == old(kc.buckets[i])
 //@   ensures ret == nil ==> kc.count == old(kc.count) && (forall i :: 0 <= i && i < len(kc.buckets) ==> len(kc.buckets[i].entries) <= kc.minPerBucket)
 //@   ensures ret != nil ==> kc.count == old(kc.count) - 1
 //@   ensures ret != nil ==> exists m :: 0 <= m && m < len(kc.buckets) && old(len(kc.buckets[m].entries)) > kc.minPerBucket \
@@ -141,7 +143,7 @@ package kademlia
 //@   ensures ret != nil && fresh(ret) && ret.entries != nil && fresh(ret.entries) && len(ret.entries) == 0
 //@
 //@ func (*bucket).update
-//@   noframe
+//@   modifies b.minExpiresAt, all(b.entries)
 //@   requires b.entries != nil
 //@   allowpanic
 //@   ensures added <==> !old(string(key) in b.entries)
@@ -158,8 +160,20 @@ package kademlia
 //@   ensures old(kc.max) == 0 ==> evicted == nil && !added && kc.count == old(kc.count)
 //@   ensures old(kc.count) <= old(kc.max) ==> kc.count <= kc.max
 //@   ensures kc.max == old(kc.max)
+//@   ghostvar badded = false
+//@   ghostvar removed = false
+//@   ensures [count] kc.count == old(kc.count) + (ghost(badded) ? 1 : 0) - (ghost(removed) ? 1 : 0)
+//@   after call (*bucket).update:
+//@     set badded = res0
+//@   after call (*Cache).evict:
+//@     set removed = res0 != nil
+//@   after call (*bucket).delete:
+//@     set removed = true
 //@   fnspec fn:
 //@     pure
+//@   loop 0:
+//@     invariant inv(kc) && kc.count == old(kc.count) && kc.max == old(kc.max) && kc.minPerBucket == old(kc.minPerBucket) && len(kc.buckets) >= old(len(kc.buckets))
+//@     invariant !ghost(badded) && !ghost(removed)
 
 // ---- enumeration order (C19): the order in which ForEach visits the buckets ----------------------
 // Bucket lz first; then the deeper buckets whose bit of d = locus xor k is 1, by increasing depth;
